@@ -19,7 +19,8 @@ RULE = ("a case is a typed list or dict field (item/key/value families with conc
         ">= 1 mutation; distinct = distinct (field, history)")
 REQUIRED = ("config_item_lists", "ops_compared", "list_ops_compared", "dict_ops_compared", "typed_result_probes", "op:setslice", "op:ior",
             "op:setdefault", "op:update", "op:extend", "op:iadd", "iter:iter", "iter:proxy_other", "iter:mapping",
-            "update:proxy_same+kwargs", "update:proxy_other+kwargs", "update:pairs+kwargs", "iter:gen_dedup", "iter:multimap")
+            "update:proxy_same+kwargs", "update:proxy_other+kwargs", "update:pairs+kwargs", "iter:gen_dedup", "iter:multimap",
+            "sorts_with_key_and_reverse", "members_removed_by_object", "equal_members_added")
 ASSUMPTIONS = ["operations the builtin rejects are skipped; operations with an argument the model labels invalid "
                "must raise and are followed by a resynchronisation of the model (partial application of multi-element "
                "operations is not part of this property)"]
@@ -93,6 +94,10 @@ def generate(rng, ctx):
                                   (2, "query")])
             if cfg_items and name in ("remove", "sort", "imul", "mul", "query"):
                 name = "append"
+                if item["kind"] == "ctype" and rng.random() < 0.6:
+                    # configuration types compare by content: a second member equal to an earlier one, and removal of a
+                    # member by handing the object itself over (the builtin takes out the first EQUAL one)
+                    name = rng.choice(["dup_member", "remove_member", "remove_member"])
             op = {"op": name}
             if name in ("append", "insert", "setitem", "remove"):
                 op["x"] = _vals(rng, item, 1, bad)[0]
@@ -111,6 +116,9 @@ def generate(rng, ctx):
                 op["n"] = rng.choice([0, 1, 2, 3, -1])
             if name == "sort":
                 op["reverse"] = rng.random() < 0.5
+                op["key"] = rng.choice([None, None, "len_str", "first", "const", "mod10"])
+            if name in ("dup_member", "remove_member"):
+                op["i"] = rng.randrange(0, 6)
             ops.append(op)
         init = _vals(rng, item, rng.choice([0, 1, 3, 5]))
     else:
@@ -379,6 +387,11 @@ def _probe_typed(res, result, f, what, is_list):
     return "%s accepted an invalid item %r - it is not typed and validated (type %s)" % (what, bad, type(result).__name__)
 
 
+_SORT_KEYS = {None: None, "len_str": lambda v: len(str(v)), "first": lambda v: str(v)[:1], "const": lambda v: 0,
+              "mod10": lambda v: (hash(str(v)) if not isinstance(v, (int, float)) or v != v else int(v)) % 10 if not (
+                  isinstance(v, float) and (v != v or v in (float("inf"), float("-inf")))) else 0}
+
+
 def _list_op(cc, cfg, f, proxy, ref, op, res):
     item = f["item"]
     name = op["op"]
@@ -398,6 +411,29 @@ def _list_op(cc, cfg, f, proxy, ref, op, res):
         for what, a, b in checks:
             if not eqstar(a, b):
                 return "viol", "%s gives %r, builtin gives %r" % (what, a, b)
+        return "ok", None
+    if name in ("dup_member", "remove_member"):
+        if not len(ref):
+            return None
+        i = op["i"] % len(ref)
+        if name == "dup_member":
+            import copy as _copy
+
+            res.count("equal_members_added")
+            proxy.append(_copy.deepcopy(plain(proxy[i])))
+            ref.append(_copy.deepcopy(ref[i]))
+            return "ok", None
+        member = proxy[i]
+        trial = list(ref)
+        trial.remove(ref[i])
+        try:
+            got = proxy.remove(member)
+        except Exception as exc:
+            return "viol", "remove(member) raised %r" % (exc,)
+        res.count("members_removed_by_object")
+        ref[:] = trial
+        if got is not None:
+            return "viol", "remove returned %r" % (got,)
         return "ok", None
     if name in ("append", "insert", "setitem"):
         ok, n = _norm_item(item, op["x"])
@@ -545,7 +581,7 @@ def _list_op(cc, cfg, f, proxy, ref, op, res):
             del trial[slice(op["a"], op["b"], op["c"])]
             want = None
         elif name == "sort":
-            want = trial.sort(reverse=op["reverse"])
+            want = trial.sort(key=_SORT_KEYS[op.get("key")], reverse=op["reverse"])
         elif name == "reverse":
             want = trial.reverse()
         elif name == "clear":
@@ -564,7 +600,9 @@ def _list_op(cc, cfg, f, proxy, ref, op, res):
         elif name == "delslice":
             got = proxy.__delitem__(slice(op["a"], op["b"], op["c"]))
         elif name == "sort":
-            got = proxy.sort(reverse=op["reverse"])
+            if op.get("key") and op["reverse"]:
+                res.count("sorts_with_key_and_reverse")
+            got = proxy.sort(key=_SORT_KEYS[op.get("key")], reverse=op["reverse"])
         elif name == "reverse":
             got = proxy.reverse()
         else:
